@@ -329,6 +329,24 @@ func C01(ctx *Ctx) {
 							if ex.IsConst() && ex.C != g.auth {
 								continue // not authoritative at exit on this path: invisible
 							}
+							// the exit width may be settled by the path's conditions without being a
+							// merge under them (a flag computed first, tested afterwards)
+							if !ex.IsConst() && fl.Hi <= 1 {
+								bc := &absint.BoolCtx{Conds: r.Conds}
+								env := map[string]bool{}
+								for k, v := range lf.guards {
+									ge := bc.CondExpr(k)
+									for ge.Op == "not" {
+										ge, v = ge.A[0], !v
+									}
+									if ge.Op == "var" {
+										env[ge.V] = v
+									}
+								}
+								if fe := bc.BitOf(ex, 0).Assign(env); fe.Op == "const" && fe.K != (g.auth == 1) {
+									continue
+								}
+							}
 						}
 					}
 					for _, d := range absint.LinDeps(lf.lin) {
